@@ -832,6 +832,11 @@ class PassSelf(AbsObj):
     def getattr_(self, a, interp):
         if a == 'compilation':
             return PassCompilation(self.sim)
+        if a == '_cur_blocks' and getattr(self.sim, 'pass_blocks',
+                                          None) is not None:
+            # the open DO/FOR blocks around the node (Pass1 keeps
+            # BlockContext(kind) objects)
+            return list(self.sim.pass_blocks)
         ci = self.sim.repo.cls('qbee.compiler', 'Pass2')
         m = self.sim.repo.find_method(ci, a)
         if m is not None:
@@ -904,6 +909,28 @@ def check_marker_balance(ctx, pid):
                   'nested in emission order, absent with the flag off, and '
                   'each clause statement of IF/SELECT blocks is bracketed '
                   'exactly once')
+
+
+def check_exit_admission(ctx, pid):
+    from . import gendrive
+    gendrive.report(
+        ctx, pid, kinds={'valid-node-rejected', 'invalid-node-accepted'},
+        rule_suffix='exit-statements-admitted-exactly-inside-their-loop',
+        rule_text='the passes, interpreted on an EXIT FOR / EXIT DO node '
+                  'with a stack of open blocks, accept it when a loop of its '
+                  'kind is open anywhere up the stack (also behind loops of '
+                  'the other kind) and reject it with a CompileError when '
+                  'none is')
+
+
+def check_exit_targets(ctx, pid):
+    from . import gendrive
+    gendrive.report(
+        ctx, pid, kinds={'exit-target'}, rule_suffix='exit-leaves-innermost-loop',
+        rule_text='EXIT FOR / EXIT DO, generated inside nested loops of '
+                  'both kinds, jumps to the exit label of the innermost '
+                  'enclosing loop of its own kind (abstract run of the '
+                  'generator on a block stack with two candidates)')
 
 
 def check_input_prompt(ctx, pid):
